@@ -497,10 +497,13 @@ def append_replay_output(path, rc, out):
 def match_known_native(known, cname, f):
     for k in known:
         if k.get("contract") == cname and f["clause"].startswith(k.get("clause", "")):
+            # a generated input that fails is attributed to a recorded finding only if it lies in
+            # that finding's witness class (given as a pattern over the arguments); the
+            # generators keep clear of the recorded classes, so without a pattern every failing
+            # generated input is a NEW violation -- the recorded witnesses themselves are
+            # re-executed separately (known_witnesses) and print KNOWN-FINDING
             w = k.get("native_witness")
-            if w is None:
-                return k
-            if re.search(w, f.get("args_repr", "")):
+            if w is not None and re.search(w, f.get("args_repr", "")):
                 return k
     return None
 
